@@ -76,6 +76,14 @@ func init() {
 	})
 }
 
+// c12askOnce: constructs in which the condition is written once: its B is asked exactly once (a B with an effect
+// shows how often it ran; a B whose answers alternate shows which answer was used: the first)
+var c12askOnce = []struct{ name, src string }{
+	{"if-else", `("T" if v else "E")`}, {"if", `("T" if v)`}, {"guarded return", `{|c| return "T" if c; "E"}(v)`}, {"guarded raise", `{|c| raise ValueErr.new("T") if c; "E"}.try.call(v).A[1].nil?.!`},
+	{"guarded yield", `<{|c| yield "T" if c}>.new(v).try.next.val`}, {"guarded defer", `{|c| defer "D".p if c; "E"}(v)`}, {"not", `!v`}, {"and", `v && "T"`}, {"or", `v || "E"`},
+	{"compound and", `a := v; a &&= "T"; a`}, {"compound or", `a := v; a ||= "E"; a`},
+}
+
 func runC12(w *fw.W) {
 	var ip *interp.Interp
 	var pool *Pool
@@ -111,6 +119,34 @@ func runC12(w *fw.W) {
 		tmpls[c.name] = interp.MustTemplate(c.src)
 	}
 	tB := interp.MustTemplate("v.B")
+	if w.Take() {
+		w.Begin("B asked once per written condition", nil)
+		var vs violSet
+		n := 0
+		for _, c := range c12askOnce {
+			for _, first := range []string{"true", "false"} {
+				// B prints a mark and alternates its answer starting with `first`
+				src := fmt.Sprintf("ans := [%s, %s, %s, %s, %s, %s]._iter\nv := {tag: 1, B: m{\"Q\".p; ans.next}}\nr := %s\n'done", first, map[string]string{"true": "false", "false": "true"}[first], first, map[string]string{"true": "false", "false": "true"}[first], first, first, c.src)
+				ref := strings.Replace(src, "B: m{\"Q\".p; ans.next}", "B: m{\"Q\".p; "+first+"}", 1)
+				o := ip.Run(src, interp.Options{Env: pool.Scope()})
+				ro := ip.Run(ref+"\n", interp.Options{Env: pool.Scope()})
+				n++
+				if !ro.OK() {
+					panic("C12 harness: reference program does not evaluate: " + ref + " → " + ro.Outcome())
+				}
+				// the construct behaves as with a constant B answering `first`, and B ran exactly as often
+				if !o.OK() || o.Stdout != ro.Stdout {
+					vs.add("C12|B-asked-once|"+c.name, fmt.Sprintf("condition written once, B answering %s first then alternating: `%s` printed %q; with a B that always answers %s it prints %q", first, c.src, o.Stdout, first, ro.Stdout), src)
+				}
+				if strings.Count(ro.Stdout, "Q\n") != 1 {
+					vs.add("C12|B-asked-once|"+c.name+"|count", fmt.Sprintf("`%s`: B ran %d times for one written condition", c.src, strings.Count(ro.Stdout, "Q\n")), ref)
+				}
+			}
+		}
+		r := fw.Result{Verdict: fw.Held, Evals: n, Counters: map[string]int{"judged": n, "ask_once_programs": n}, DKeys: []string{"B-asked-once"}}
+		vs.finish(&r)
+		w.End(r)
+	}
 	for _, v := range pool.Vals {
 		if !w.Take() {
 			continue
